@@ -74,3 +74,6 @@ open Pandora.C11
 #print axioms Pandora.C11KernelsGlue.nanReplacement_generated_eq
 #print axioms Pandora.C11KernelsGlue.shiftMask_generated_width
 #print axioms Pandora.C11KernelsGlue.cmaxUpdate_generated_eq
+#print axioms Pandora.C11KernelsGlue.leftMaskTest_generated_eq
+#print axioms Pandora.C11KernelsGlue.rightMaskTest_generated_eq
+#print axioms Pandora.C11KernelsGlue.shiftMaskTest_generated_eq
